@@ -227,3 +227,22 @@ void enumerate(const Emit& emit, const std::string& tier) {
     emit(b);
   }
 }
+
+// fixed finding 544636b: a failed allocation during a resizing assignment left the target inconsistent
+void regressions() {
+  for (int tk = 0; tk < 3; tk++) for (int op : {13, 15, 19}) {
+    World w; w.d = 3; w.d2 = 4; w.tk = tk; w.primed = false;
+    ByteSource vals(nullptr, 0);
+    build(w, vals);
+    ledger::arm(0);
+    bool bad = false;
+    try { run_op(w, op); } catch (const std::bad_alloc&) { bad = true; }
+    ledger::disarm();
+    if (!ledger::fired) continue;
+    CHECK(bad, std::string("C16|") + OPN[op] + "|bad_alloc-did-not-propagate", "regression");
+    CHECK(w.T->Size() == 0 || w.T->components != nullptr, std::string("C16|") + OPN[op] + "|vector-claims-size-without-storage", "regression: target kind %d", tk);
+    *w.T = *w.X;
+    CHECK(comps(*w.T) == w.x, std::string("C16|") + OPN[op] + "|reassignment-after-fault|value", "regression");
+  }
+  SU_vector::clear_mem_cache();
+}
